@@ -37,6 +37,15 @@ func (r *RaceLog) Mark() int64 {
 	return st.Size()
 }
 
+// Grown reports whether anything was reported after mark (cheap: one stat).
+func (r *RaceLog) Grown(mark int64) bool {
+	if r == nil {
+		return false
+	}
+	st, err := os.Stat(r.path)
+	return err == nil && st.Size() > mark
+}
+
 // Since returns what was reported after mark.
 func (r *RaceLog) Since(mark int64) string {
 	if r == nil {
@@ -51,7 +60,13 @@ func (r *RaceLog) Since(mark int64) string {
 		return ""
 	}
 	defer f.Close()
-	buf := make([]byte, st.Size()-mark)
+	// one run can flood the log (every racy access of a loop is reported, since
+	// report de-duplication is off): the first megabyte tells everything
+	size := st.Size() - mark
+	if size > 1<<20 {
+		size = 1 << 20
+	}
+	buf := make([]byte, size)
 	n, _ := f.ReadAt(buf, mark)
 	return string(buf[:n])
 }
